@@ -143,6 +143,7 @@ def r15_5(ctx):
         hb = mm[0]
         direct = 0
         in_iter = 0
+        skipped = None
         for n in walk(hb["body"]):
             if n.get("k") == "MethodCall" and n.get("callee") == ps["path"]:
                 direct += 1
@@ -151,10 +152,16 @@ def r15_5(ctx):
             if n.get("k") == "MethodCall" and n["method"] in ("for_each", "map", "any", "find_map", "all") and n["args"] and n["args"][0].get("k") == "Closure":
                 if any(x.get("k") == "MethodCall" and x.get("callee") == ps["path"] for x in walk(n["args"][0])):
                     base = n["recv"]
+                    skipping = []
                     while strip_transparent(base).get("k") == "MethodCall":
+                        if strip_transparent(base)["method"] in ("filter", "filter_map", "skip", "skip_while", "take", "take_while", "step_by", "flat_map", "map_while"):
+                            skipping.append(strip_transparent(base)["method"])
                         base = strip_transparent(base)["recv"]
                     if (field_path(strip_transparent(base)) or "").endswith(".body"):
-                        in_iter += 1
+                        if skipping:
+                            skipped = skipping
+                        else:
+                            in_iter += 1
         # ... or in the body of a `for` loop over module.body
         from .c16 import _is_for_loop
         for n in walk(hb["body"]):
@@ -166,7 +173,8 @@ def r15_5(ctx):
                 if base is not None and (field_path(strip_transparent(base)) or "").endswith(".body"):
                     in_iter += 1
         r.ob("pre-pass scans the module head and every top-level item", direct >= 2 and in_iter >= 1, C.mloc(hb, hb),
-             "%d call(s) of the pragma search, %d inside an iteration over module.body" % (direct, in_iter))
+             "%d call(s) of the pragma search, %d inside an iteration over module.body" % (direct, in_iter) +
+             ("; the iteration drops items by %s(): an annotation before an `export` / `import` is not seen" % skipped[0] if skipped else ""))
     return r
 
 
